@@ -320,7 +320,11 @@ def hStartStageCore (c : Cfg) (s : State) (id i retry : Nat) : List Txn :=
     settles the stage), the message is only acknowledged; F37 repair: the same once the workflow has a final status
     (recovery no longer looks at it, a stage claimed then would stay RUNNING if the worker died before planning) -/
 def hStartStage (c : Cfg) (s : State) (id i retry : Nat) : List Txn :=
-  if (s.canceled || s.wfStatus.isComplete) && (s.stage i).status == .notStarted then [] else hStartStageCore c s id i retry
+  if (s.canceled || s.wfStatus.isComplete) && (s.stage i).status == .notStarted then
+    -- F66 repair: a cancel that only set the flag (WorkflowStore.cancel() called directly) produced no CancelStage fan-out:
+    -- the guard hands the workflow to the regular cancel path (CancelWorkflow: fan-out + CompleteWorkflow)
+    if s.canceled && !s.wfStatus.isComplete then [[.mark id, .push .cancelWorkflow]] else []
+  else hStartStageCore c s id i retry
 
 def hStartTask (_c : Cfg) (s : State) (id i t : Nat) : List Txn :=
   let st := s.stage i
@@ -447,7 +451,9 @@ def hCompleteStage (c : Cfg) (s : State) (id i : Nat) : List Txn :=
 
 def hSkipStage (c : Cfg) (s : State) (id i : Nat) : List Txn :=
   let st := s.stage i
-  if st.status != .notStarted || s.canceled then []   -- F26 repair: nothing is skipped once a cancel is durable
+  if st.status != .notStarted then []
+  else if s.canceled then   -- F26 repair: nothing is skipped once a cancel is durable; F66: ... and the guard finishes the cancel
+    if !s.wfStatus.isComplete then [[.mark id, .push .cancelWorkflow]] else []
   else
     let down := c.down i
     let cont : List Eff := if down.isEmpty then [.push (.completeWorkflow 0)] else down.map (fun d => .push (.startStage d 0))
@@ -474,7 +480,11 @@ def hCompleteWorkflow (c : Cfg) (s : State) (id retry : Nat) : List Txn :=
     | none => if explicitlyWaiting s && !s.canceled then [] else [[.push (.completeWorkflow (retry + 1))]]
     | some status =>
       if !Status.canTransition s.wfStatus status then [] else
-      let running := if status != .succeeded then (List.range c.n).filter (fun i => (s.stage i).status == .running) else []
+      -- F66 repair: in a CANCELED-flagged workflow every stage that is not finished is canceled, not only the RUNNING ones (a
+      -- cancel that only set the flag has produced no fan-out: stages that never started would stay NOT_STARTED)
+      let running := if status != .succeeded then
+          (List.range c.n).filter (fun i => (s.stage i).status == .running || (s.canceled && !(s.stage i).status.isComplete))
+        else []
       [[.setWf status, .mark id] ++ running.map (fun i => .push (.cancelStage i))]
 
 def hCancelWorkflow (c : Cfg) (s : State) (id : Nat) : List Txn :=
